@@ -47,6 +47,7 @@ fn base_cfg(tier: Tier, index: u64) -> HistCfg {
         phases: false,
         special_keys: false,
         default_table: false,
+        big_table: None,
     };
     // every 12th case: hundreds of keys, so that the tiny tables of the tuple carry chains
     // of several hundred entries
@@ -55,6 +56,10 @@ fn base_cfg(tier: Tier, index: u64) -> HistCfg {
         c.max_buckets = 65536;
         c.ops.w.iter = 1;
         c.ops.w.stats = 0;
+    }
+    if index % 600 == 101 {
+        make_very_dense(&mut c);
+        c.max_buckets = 65536;
     }
     c
 }
@@ -187,7 +192,7 @@ impl Prop for C07 {
         tier.pick(5000, 30000)
     }
     fn timeout_s(&self, tier: Tier) -> u64 {
-        tier.pick(90, 240)
+        tier.pick(150, 400)
     }
     fn run_case(&self, tier: Tier, seed: u64, index: u64, w: &WCtx) -> CaseOut {
         let st = strategy(tier, index);
